@@ -20,9 +20,15 @@ DIFF = {1: "number of generations", 2: "evaluation count", 3: "callback count", 
 
 def configs(ctx, n_per_kind, force=None):
     out = []
+    strategies = ["best_2", "rand_1", "current_to_best_1", "rand_to_best1", "best_1", "rand_2"]
     for kind in LT.KINDS:
-        for _ in range(n_per_kind):
-            cfg = LT.random_config(ctx.rng, kind, **(force or {}))
+        for i in range(n_per_kind):
+            f = dict(force or {})
+            if kind in ("DifferentialEvolution", "jDE"):
+                f.setdefault("strategy", strategies[i % 6])       # every strategy name is exercised, not sampled
+                if i % 6 == 0:
+                    f.setdefault("elitism", True)
+            cfg = LT.random_config(ctx.rng, kind, **f)
             out.append(cfg)
     return out
 
